@@ -69,7 +69,8 @@ type decodeTables struct {
 
 func (w *World) decodeTablesOf(fn *ssa.Function) decodeTables {
 	dt := decodeTables{Attrs: map[string][]string{}, Children: map[string][]string{}}
-	recv := fn.Params[0]
+	_ = fn.Params[0]
+	recvPath := func(addr ssa.Value) (string, bool) { return w.recvPathIn(fn, addr) }
 	// receiver-rooted stores reachable from a location until the enclosing loop's header / next Token
 	storesFrom := func(start Loc, stop func(ssa.Instruction) bool) []string {
 		set := map[string]bool{}
@@ -79,10 +80,8 @@ func (w *World) decodeTablesOf(fn *ssa.Function) decodeTables {
 				if !ok {
 					continue
 				}
-				if rootOf(st.Addr) == ssa.Value(recv) {
-					if fp := fieldPath(st.Addr); len(fp) > 0 {
-						set[fieldNames(fp)] = true
-					}
+				if p, ok := recvPath(st.Addr); ok {
+					set[p] = true
 				}
 			}
 		})
@@ -94,13 +93,24 @@ func (w *World) decodeTablesOf(fn *ssa.Function) decodeTables {
 		return out
 	}
 	// attribute loop: range over start.Attr
-	for _, lp := range findRangeLoops(fn) {
-		if lp.slice == nil || !strings.HasSuffix(fieldNames(fieldPath(lp.slice)), "Attr") {
+	type ownedLoop struct {
+		lp rangeLoop
+		g  *ssa.Function
+	}
+	var attrLoops []ownedLoop
+	for _, g := range withHelpers(fn) {
+		for _, lp := range findRangeLoops(g) {
+			attrLoops = append(attrLoops, ownedLoop{lp, g})
+		}
+	}
+	for _, ol := range attrLoops {
+		lp, g := ol.lp, ol.g
+		if lp.slice == nil || !strings.HasSuffix(fieldNames(fieldPath(originIn(fn, lp.slice))), "Attr") {
 			continue
 		}
 		dt.HasAttrLoop = true
 		isHeader := func(in ssa.Instruction) bool { return in == lp.header.Instrs[0] }
-		for _, b := range fn.Blocks {
+		for _, b := range g.Blocks {
 			for si := range b.Succs {
 				c, truth, isIf := edgeAssertion(b, si)
 				if !isIf || !truth {
@@ -149,9 +159,9 @@ func (w *World) decodeTablesOf(fn *ssa.Function) decodeTables {
 				return false
 			}, phiFeasible, 5000, func(path []ssa.Instruction, end pathEnd) {
 				for _, in := range path {
-					if st, ok := in.(*ssa.Store); ok && rootOf(st.Addr) == ssa.Value(recv) {
-						if fp := fieldPath(st.Addr); len(fp) > 0 {
-							set["field:"+fieldNames(fp)] = true
+					if st, ok := in.(*ssa.Store); ok {
+						if p, ok := recvPath(st.Addr); ok {
+							set["field:"+p] = true
 						}
 					}
 					c, ok := in.(*ssa.Call)
@@ -169,29 +179,33 @@ func (w *World) decodeTablesOf(fn *ssa.Function) decodeTables {
 						}
 					}
 					desc := ""
-					if rootOf(tgt) == ssa.Value(recv) && len(fieldPath(tgt)) > 0 {
-						desc = "field:" + fieldNames(fieldPath(tgt))
+					if p, ok := recvPath(tgt); ok {
+						desc = "field:" + p
 					} else if al, ok := tgt.(*ssa.Alloc); ok {
 						desc = "type:" + strings.TrimPrefix(w.typeStr(al.Type()), "*")
 						// where is it stored?
 						var into []string
 						for _, in2 := range path {
-							if st, ok := in2.(*ssa.Store); ok && rootOf(st.Addr) == ssa.Value(recv) {
+							if st, ok := in2.(*ssa.Store); ok {
+								sp, isRecv := recvPath(st.Addr)
+								if !isRecv {
+									continue
+								}
 								v := st.Val
 								if mi, ok := v.(*ssa.MakeInterface); ok {
 									v = mi.X
 								}
 								if v == ssa.Value(al) {
-									into = append(into, fieldNames(fieldPath(st.Addr)))
+									into = append(into, sp)
 								} else if u, ok := v.(*ssa.UnOp); ok && u.X == ssa.Value(al) {
-									into = append(into, fieldNames(fieldPath(st.Addr)))
+									into = append(into, sp)
 								} else if cl, ok := v.(*ssa.Call); ok && w.callKey(cl) == "builtin.append" {
 									for _, e := range sliceLitElems(cl.Call.Args[1]) {
 										if mi, ok := e.(*ssa.MakeInterface); ok {
 											e = mi.X
 										}
 										if e == ssa.Value(al) {
-											into = append(into, fieldNames(fieldPath(st.Addr))+"[]")
+											into = append(into, sp+"[]")
 										}
 									}
 								}
@@ -212,24 +226,26 @@ func (w *World) decodeTablesOf(fn *ssa.Function) decodeTables {
 			sort.Strings(out)
 			return out
 		}
-		for _, b := range fn.Blocks {
-			for si := range b.Succs {
-				c, truth, isIf := edgeAssertion(b, si)
-				if !isIf || !truth {
-					continue
+		for _, g := range withHelpers(fn) {
+			for _, b := range g.Blocks {
+				for si := range b.Succs {
+					c, truth, isIf := edgeAssertion(b, si)
+					if !isIf || !truth {
+						continue
+					}
+					bo, ok := c.(*ssa.BinOp)
+					if !ok || bo.Op != token.EQL {
+						continue
+					}
+					s, isS := stringConst(bo.Y)
+					if !isS || !strings.HasSuffix(fieldNames(fieldPath(bo.X)), "Name.Local") {
+						continue
+					}
+					if !isStartElemRootIn(fn, rootOf(bo.X)) {
+						continue
+					}
+					dt.Children[s] = append(dt.Children[s], decodedFrom(Loc{b.Succs[si], 0})...)
 				}
-				bo, ok := c.(*ssa.BinOp)
-				if !ok || bo.Op != token.EQL {
-					continue
-				}
-				s, isS := stringConst(bo.Y)
-				if !isS || !strings.HasSuffix(fieldNames(fieldPath(bo.X)), "Name.Local") {
-					continue
-				}
-				if !isStartElemRoot(rootOf(bo.X)) {
-					continue
-				}
-				dt.Children[s] = append(dt.Children[s], decodedFrom(Loc{b.Succs[si], 0})...)
 			}
 		}
 	}
@@ -405,4 +421,69 @@ func isStartElemRoot(v ssa.Value) bool {
 		}
 	}
 	return false
+}
+
+// isStartElemRootIn: like isStartElemRoot, also for the local into which a helper of scope spills a start-element
+// parameter that scope passes it.
+func isStartElemRootIn(scope *ssa.Function, v ssa.Value) bool {
+	if isStartElemRoot(v) {
+		return true
+	}
+	al, ok := v.(*ssa.Alloc)
+	if !ok {
+		return false
+	}
+	for _, r := range *al.Referrers() {
+		st, ok := r.(*ssa.Store)
+		if !ok || st.Addr != ssa.Value(al) {
+			continue
+		}
+		p, isP := st.Val.(*ssa.Parameter)
+		if !isP || !isStartElementType(p.Type()) {
+			continue
+		}
+		o := originIn(scope, p)
+		if o == ssa.Value(p) {
+			continue
+		}
+		// the argument: a load of the caller's start-element local, or the asserted value itself
+		if u, ok := o.(*ssa.UnOp); ok && isStartElemRoot(u.X) {
+			return true
+		}
+		if ex, ok := o.(*ssa.Extract); ok {
+			if ta, ok := ex.Tuple.(*ssa.TypeAssert); ok && isStartElementType(ta.AssertedType) {
+				return true
+			}
+		}
+	}
+	return false
+}
+
+// recvPathIn: the field path of an address relative to the receiver of fn — directly, or through the parameter of a
+// helper that fn hands (part of) its receiver to.
+func (w *World) recvPathIn(fn *ssa.Function, addr ssa.Value) (string, bool) {
+	recv := fn.Params[0]
+	prefix := ""
+	for i := 0; i < 4; i++ {
+		root := rootOf(addr)
+		local := fieldNames(fieldPath(addr))
+		if prefix != "" && local != "" {
+			local = local + "." + prefix
+		} else if local == "" {
+			local = prefix
+		}
+		if root == ssa.Value(recv) {
+			return local, local != ""
+		}
+		p, isP := root.(*ssa.Parameter)
+		if !isP || p.Parent() == fn {
+			return "", false
+		}
+		o := originIn(fn, p)
+		if o == ssa.Value(p) {
+			return "", false
+		}
+		addr, prefix = o, local
+	}
+	return "", false
 }
